@@ -498,3 +498,117 @@ fn of9_ack_of_shared_frame_after_first_packet_was_passed() {
     assert!(!hc.is_send_pending(), "[C09,C02] nothing is pending");
     std::mem::forget(w); std::mem::forget(hc);
 }
+
+// ---------------------------------------------------------------------------------------------------------------
+// OF11: per-fragment acknowledgement of a two-fragment Reliable packet: the fragment whose frame was acknowledged is
+// not sent again, the other one is retransmitted; the packet stays pending until both are acknowledged (C12, C02, C04).
+fn two_fragment_reliable(acked_first: bool) {
+    unsafe { crate::verif_env::RANDOM_BOOL_FIXED = Some(false); }
+    unsafe { crate::frame::serial::verif_codec::CRC_STUB_VALUE = kani::any(); }
+    let e = Env { rtt: 50, rto: 200 };
+    let mut hc = small(TXP, 0, TXF, 0, None);
+    hc.send(vec![0u8; 1449].into_boxed_slice(), 9, SendMode::Reliable);
+    let (t0, t1): (u64, u64) = (1000, 1300);
+    hc.sync_timeout_base_ms = t0;
+    hc.flush_alloc = AMPLE;
+    let mut w = Wire::new();
+    hc.emit_frames(t0, e.rtt, e.rto, 0, &mut w);
+    assert!(w.n == 2, "[C04] one frame per fragment: the full-size fragment fills a frame");
+    let a = data_frame(&w.f0, 0).unwrap();
+    let b = data_frame(&w.f1, 0).unwrap();
+    assert!(a.frame_id == TXF && a.frag == 0 && a.len == 1448 && b.frame_id == 0 && b.frag == 1 && b.len == 1 && a.id == TXP && b.id == TXP);
+    // the peer acknowledges exactly one of the two frames
+    let acked_frame = if acked_first { TXF } else { 0 };
+    hc.handle_ack_frame(frame::AckFrame { frame_window_base_id: TXF, packet_window_base_id: TXP, frame_acks: vec![frame::AckGroup { base_id: acked_frame, bitfield: 1, nonce: false }] });
+    hc.flush_alloc = AMPLE;
+    hc.emit_frames(t1, e.rtt, e.rto, 1, &mut w);
+    assert!(is_data(&w.f2) && !is_data(&w.f3), "[C12,C02] exactly the unacknowledged fragment is retransmitted");
+    let c = data_frame(&w.f2, 0).unwrap();
+    assert!(c.count == 1 && c.id == TXP && c.last == 1 && c.frag == if acked_first { 1 } else { 0 }, "[C12] the acknowledged fragment is not transmitted again, the other one is");
+    assert!(c.len == if acked_first { 1 } else { 1448 }, "[C04] a retransmitted fragment carries the same slice");
+    assert!(hc.is_send_pending() && hc.send_buffer_size() == 1449, "[C09,C20] the packet stays pending and counted until every fragment is acknowledged and the window passes it");
+    std::mem::forget(w); std::mem::forget(hc);
+}
+
+//@h props=C12,C02,C04,C09,C20 tier=quick timeout=900 role=flush-per-fragment-ack cbmc=--max-field-sensitivity-array-size+512 unwindset=FrameQueue17acknowledge_group.0:34
+//@fn HalfConnection::{send, emit_frames, emit_data_frames, handle_ack_frame, is_send_pending, send_buffer_size}, FrameQueue::acknowledge_group, PendingPacket::{acknowledge_fragment, fragment_acknowledged, datagram}
+//@bound small connection; ONE 1449-byte (two-fragment) Reliable packet; flush at 1000 ms (rtt 50 ms): two frames; ack group for the FIRST frame only (frame nonces pinned to false); flush at 1300 ms; CRC value any
+//@assume as of2_valid_ack_stops_resend_reliable; times concrete (whether a retransmission is due decides a heap-modifying branch in the middle of the script)
+#[kani::proof]
+#[kani::unwind(5)]
+#[kani::stub(crate::frame::serial::crc::compute, crate::frame::serial::verif_codec::crc_stub)]
+#[kani::stub(alloc::rc::is_dangling, not_dangling)]
+fn of11_only_the_unacknowledged_fragment_is_resent_first_acked() { two_fragment_reliable(true); }
+
+//@h props=C12,C02,C04,C09,C20 tier=thorough timeout=900 role=flush-per-fragment-ack cbmc=--max-field-sensitivity-array-size+512 unwindset=FrameQueue17acknowledge_group.0:34
+//@fn HalfConnection::{send, emit_frames, emit_data_frames, handle_ack_frame, is_send_pending, send_buffer_size}, FrameQueue::acknowledge_group, PendingPacket::{acknowledge_fragment, fragment_acknowledged, datagram}
+//@bound as of11_only_the_unacknowledged_fragment_is_resent_first_acked, with the SECOND frame acknowledged
+//@assume as of11_only_the_unacknowledged_fragment_is_resent_first_acked
+#[kani::proof]
+#[kani::unwind(5)]
+#[kani::stub(crate::frame::serial::crc::compute, crate::frame::serial::verif_codec::crc_stub)]
+#[kani::stub(alloc::rc::is_dangling, not_dangling)]
+fn of11_only_the_unacknowledged_fragment_is_resent_second_acked() { two_fragment_reliable(false); }
+
+// ---------------------------------------------------------------------------------------------------------------
+// C19: a connection dropped in mid-transfer (unacknowledged fragments in the resend queue and in the frame log, an
+// unsent fragment in the pending queue, a packet still in the send queue) releases everything it allocated.
+//@h props=C19,C12 tier=quick timeout=1200 role=leak-connection cbmc=--max-field-sensitivity-array-size+512+--memory-leak-check
+//@fn drop glue of HalfConnection (PacketSender, PendingQueue, ResendQueue, FrameQueue with fragment references, PacketReceiver, FrameAckQueue), HalfConnection::{send, emit_frames}
+//@bound small connection; three packets submitted (1 byte Reliable, 1449 bytes Persistent, 1 byte Unreliable); one flush whose credit (1480 bytes) cuts the second packet after its first fragment (two frames on the wire); then the connection and the recorded frames are dropped
+//@assume as of1_two_flushes_reliable; CBMC's memory-leak check (every allocation still live at the end of the harness is a leak); Kani's allocator model checks every deallocation layout
+#[kani::proof]
+#[kani::unwind(5)]
+#[kani::stub(crate::frame::serial::crc::compute, crate::frame::serial::verif_codec::crc_stub)]
+#[kani::stub(alloc::rc::is_dangling, not_dangling)]
+fn o19_2_connection_dropped_mid_transfer() {
+    let mut hc = small(TXP, 0, TXF, 0, None);
+    hc.send(Box::new([1]), 0, SendMode::Reliable);
+    hc.send(vec![0u8; 1449].into_boxed_slice(), 1, SendMode::Persistent);
+    hc.send(Box::new([3]), 2, SendMode::Unreliable);
+    hc.sync_timeout_base_ms = 1000;
+    hc.flush_alloc = 1480;
+    let mut w = Wire::new();
+    hc.emit_frames(1000, 50, 200, 0, &mut w);
+    assert!(w.n == 2 && hc.is_send_pending());
+    assert!(hc.resend_queue.len() == 2 && hc.pending_queue.len() == 1 && hc.packet_sender.pending_count() == 1, "mid-transfer: fragments in every queue");
+    drop(hc);
+    drop(w);
+}
+
+// ---------------------------------------------------------------------------------------------------------------
+// OF12: a zero-length Reliable packet is a packet like any other: it is pending until acknowledged (C09, C02).
+//@h props=C09,C02,C12,C04 tier=quick timeout=900 role=flush-empty-packet cbmc=--max-field-sensitivity-array-size+512
+//@fn HalfConnection::{send, emit_frames, emit_data_frames, is_send_pending, send_buffer_size}, PendingPacket::new (zero-length payload: one empty fragment)
+//@bound small connection; ONE zero-length Reliable packet; flush at any t0 with NEGATIVE credit (nothing can be sent), flush at any t1 >= t0 with ample credit, flush at any t2 >= t1 + 4 rtt
+//@assume as of1_two_flushes_reliable
+#[kani::proof]
+#[kani::unwind(4)]
+#[kani::stub(crate::frame::serial::crc::compute, crate::frame::serial::verif_codec::crc_stub)]
+#[kani::stub(alloc::rc::is_dangling, not_dangling)]
+fn of12_empty_reliable_packet_is_pending_until_acknowledged() {
+    let e = any_env();
+    let mut hc = small(TXP, 0, TXF, 0, None);
+    hc.send(Box::new([]), 4, SendMode::Reliable);
+    assert!(hc.is_send_pending() && hc.send_buffer_size() == 0, "[C09] a queued packet is pending even if it has no payload");
+    let t0 = any_time_from(0);
+    let t1 = any_time_from(t0);
+    let t2 = any_time_from(t1);
+    kani::assume(t2 - t1 >= 4 * e.rtt);
+    hc.sync_timeout_base_ms = t0;
+    hc.flush_alloc = -1;
+    let mut w = Wire::new();
+    hc.emit_frames(t0, e.rtt, e.rto, 0, &mut w);
+    assert!(w.n == 0 && hc.is_send_pending(), "[C09] pulled into the fragment queue but not sent: still pending");
+    hc.flush_alloc = AMPLE;
+    hc.emit_frames(t1, e.rtt, e.rto, 0, &mut w);
+    assert!(w.n == 1);
+    let s = data_frame(&w.f0, 0).unwrap();
+    assert!(s.count == 1 && s.id == TXP && s.ch == 4 && s.len == 0 && s.frag == 0 && s.last == 0, "[C04] an empty packet is one empty fragment");
+    assert!(hc.is_send_pending(), "[C09,C02] sent but unacknowledged: disconnect() must keep waiting");
+    hc.flush_alloc = AMPLE;
+    hc.emit_frames(t2, e.rtt, e.rto, 1, &mut w);
+    assert!(is_data(&w.f1), "[C12,C02] and it is retransmitted like any other Reliable fragment");
+    assert!(hc.is_send_pending());
+    std::mem::forget(w); std::mem::forget(hc);
+}
